@@ -7,6 +7,20 @@ use patuniv::*;
 use vh::*;
 
 fn main() {
+    // `c12 --placements`: print the verdict of two fixed matches at every placement (template self-test)
+    if std::env::args().nth(1).as_deref() == Some("--placements") {
+        let u = universe();
+        let ty = Ty::Bool;
+        for arms in [vec![Pat::Bool(true), Pat::Bool(false)], vec![Pat::Bool(true), Pat::Bool(true)]] {
+            for pl in 0..PLACEMENTS.len() {
+                let prog = match_program_at(&u, &ty, &Val::Bool(true), &arms, pl);
+                let v = std::thread::Builder::new().stack_size(256 << 20)
+                    .spawn(move || checker_verdict(&prog)).unwrap().join().unwrap();
+                println!("{:14} {}", PLACEMENTS[pl], verdict_key(&v));
+            }
+        }
+        return;
+    }
     let mut ctx = Ctx::from_env("C12");
     let u = universe();
     let quick = ctx.quick();
@@ -14,12 +28,36 @@ fn main() {
     if avoid_d31() {
         ctx.notes.push("VERIF_AVOID=D31: positional sub-patterns on void payloads are not generated".into());
     }
-    let verdicts = par_map(&cases, |c| {
-        let prog = match_program(&u, &c.ty, &some_value(&u, &c.ty), &c.arms, None);
-        (checker_verdict(&prog), prog.src)
+    placement_selftest(&u, &mut ctx);
+    // placement dimension (D70): case i sits at placement i mod 17; every third case is also checked
+    // at the let-initialiser placement and both verdicts must agree
+    let idx: Vec<usize> = (0..cases.len()).collect();
+    let verdicts = par_map(&idx, |&i| {
+        let c = &cases[i];
+        let pl = i % PLACEMENTS.len();
+        let prog = match_program_at(&u, &c.ty, &some_value(&u, &c.ty), &c.arms, pl);
+        let v = checker_verdict(&prog);
+        let base = if i % 3 == 0 && pl != 0 {
+            Some(checker_verdict(&match_program_at(&u, &c.ty, &some_value(&u, &c.ty), &c.arms, 0)))
+        } else {
+            None
+        };
+        (v, prog.src, base)
     });
-    for (c, (v, src)) in cases.iter().zip(verdicts) {
-        let req = request(&u, "w", &c.ty, &c.arms);
+    for (i, (c, (v, src, base))) in cases.iter().zip(verdicts).enumerate() {
+        let pl = i % PLACEMENTS.len();
+        ctx.count(&format!("placement:{}", PLACEMENTS[pl]));
+        if let Some(b) = &base {
+            ctx.count("placement-pairs-compared");
+            if verdict_key(b) != verdict_key(&v) {
+                ctx.spec_fail(format!(
+                    "verdict depends on where the match stands: match on {} with arms [{}] as {}: {} / as let-init: {}",
+                    u.ty_src(&c.ty), c.arms.iter().map(|p| u.pat_src(p)).collect::<Vec<_>>().join(" ; "),
+                    PLACEMENTS[pl], verdict_key(&v), verdict_key(b)
+                ));
+            }
+        }
+        let req = format!("{} #pl={}", request(&u, "w", &c.ty, &c.arms), PLACEMENTS[pl]);
         ctx.count(&format!("origin:{}", c.origin));
         ctx.count(&format!("type:{}", head_kind(&c.ty)));
         ctx.count(&format!("arms:{}", c.arms.len()));
